@@ -129,7 +129,28 @@ def print_assumptions(prop_file):
     """Re-check the property file itself and capture the Print Assumptions output per theorem."""
     cmd = ('coqc -Q lib V.lib -Q gen V.gen -Q model V.model -Q spec V.spec -Q proofs V.proofs '
            '-Q Properties V.Properties %s' % prop_file)
+    # Print Assumptions walks the whole proof closure (minutes for the CPU theorems): the output is cached, keyed by the
+    # property file's text and the digests of every compiled dependency, so it is recomputed whenever anything changed
+    import hashlib
+    h = hashlib.md5(open(os.path.join(COQ, prop_file), 'rb').read())
+    for d in ('lib', 'gen', 'model', 'spec', 'proofs'):
+        for root, _, files in sorted(os.walk(os.path.join(COQ, d))):
+            for f in sorted(files):
+                if f.endswith('.vo'):
+                    h.update(f.encode())
+                    h.update(hashlib.md5(open(os.path.join(root, f), 'rb').read()).digest())
+    key = h.hexdigest()
+    cpath = os.path.join(BUILD, 'pa_cache', os.path.basename(prop_file) + '.json')
+    try:
+        c = json.load(open(cpath))
+        if c.get('key') == key and os.path.exists(os.path.join(COQ, prop_file[:-2] + '.vo')):
+            return True, c['out'], 'cd %s && %s   (output cached for unchanged inputs)' % (COQ, cmd)
+    except (OSError, ValueError):
+        pass
     rc, out = sh(cmd, cwd=COQ, timeout=1200)
+    if rc == 0:
+        os.makedirs(os.path.dirname(cpath), exist_ok=True)
+        json.dump(dict(key=key, out=out), open(cpath, 'w'))
     return rc == 0, out, 'cd %s && %s' % (COQ, cmd)
 
 
@@ -160,13 +181,57 @@ def write_script(path, cases):
                 f.write(l + '\n')
 
 
+JOBS = int(os.environ.get('VERIF_JOBS', '8'))
+
+
+def run_sharded(binary, cases, path, kind):
+    """Runs the cases on `binary`; with many cases the script is split into up to JOBS shards run in parallel (cases are
+    independent: every `case` line resets all components).  The unsplit script stays at `path` for replays."""
+    n = min(JOBS, len(cases) // 4)
+    if n < 2:
+        return run_runner(binary, path)
+    bins = [[0, []] for _ in range(n)]
+    for c in sorted(cases, key=lambda c: -sum(cost_of(l) for l in c[1])):
+        b = min(bins, key=lambda b: b[0])
+        b[0] += sum(cost_of(l) for l in c[1]) + 1
+        b[1].append(c)
+    paths = []
+    for i, b in enumerate(bins):
+        sp = '%s.%s%d' % (path, kind, i)
+        write_script(sp, b[1])
+        paths.append(sp)
+    from concurrent.futures import ThreadPoolExecutor
+    with ThreadPoolExecutor(max_workers=n) as ex:
+        res = list(ex.map(lambda sp: run_runner(binary, sp), paths))
+    for sp in paths:
+        os.remove(sp)
+    rc = max(abs(r[0]) for r in res)
+    return rc, ''.join(r[1] if r[1].endswith('\n') or not r[1] else r[1] + '\n' for r in res), ''.join(r[2] for r in res)
+
+
+def cost_of(line):
+    """rough cost of a script line: operations that run many machine cycles weigh by their count"""
+    f = line.split()
+    if f and f[0] in ('gb.frames', 'sys.frame'):
+        try:
+            return 17556 * int(f[-1])
+        except ValueError:
+            return 17556
+    if f and f[0] in ('gb.cyc', 'sys.cyc', 'sys.hw', 'sys.lcdtrace', 'ppu.tick', 'cpu.cyc', 'apu.cyc', 'apu.clk', 'dma.run', 'tmr.run'):
+        try:
+            return max(1, int(f[-1] if f[0] in ('gb.cyc',) else f[1]))
+        except (ValueError, IndexError):
+            return 1
+    return 1
+
+
 def run_both(cases, tag, project=None):
     """cases: list of (id, [op lines]). Returns (impl_cases, model_cases, errors)."""
     os.makedirs(BUILD + '/scripts', exist_ok=True)
     path = '%s/scripts/%s.txt' % (BUILD, tag)
     write_script(path, cases)
-    rc_i, out_i, err_i = run_runner(BUILD + '/impl_runner', path)
-    rc_m, out_m, err_m = run_runner(BUILD + '/model_runner', path)
+    rc_i, out_i, err_i = run_sharded(BUILD + '/impl_runner', cases, path, 'i')
+    rc_m, out_m, err_m = run_sharded(BUILD + '/model_runner', cases, path, 'm')
     errs = []
     if rc_i != 0:
         # the process died (os.Exit or an unrecovered fault) and took the buffered output with it: run every case in
